@@ -134,17 +134,67 @@ PROPS = {
         "level_note": "http::StatusCode::{as_str,canonical_reason} are trusted (third-party).",
     },
     "C08": {
-        "functions": ["Request::poll_input", "Request::poll_output", "Request::record_boundary", "Token::parse_request", "stream::Parser::parse", "request::Parser::parse"],
-        "bounds": "one poll from a record-boundary state with ONE complete reply-owing record (unknown type, symbolic type/id; thorough: GetValues) already buffered and a peer that sends nothing more; writer accepts any split (<= 2 short writes) or Pending (<= 1)",
-        "outside": "more than one buffered record; whole-connection executions; real threads",
-        "assumptions": [E2, E5, E7, E8],
-        "level_text": "Bounded model checking of the suspension points: whenever a poll returns Pending because the READER is not ready, the parser's output buffer is empty, the reply is on the transport and no complete record is left unprocessed.",
+        "functions": ["Request::poll_input", "Request::poll_output", "Token::parse_request", "Request::record_boundary (thorough: c07_close_drain)", "RepeatableLockFuture::poll"],
+        "bounds": "one poll of poll_read from a symbolic request state (0..2 stream bytes buffered, 0|2 reply bytes pending, caller buffer 0..4) and up to 3 polls of parse_request (0..24 handed-over bytes), each against the PARSER CONTRACT (any consumption, 0|2 reply bytes per parse call, any delivery <= 3 bytes, end of stream, <= 1 error); reader <= 2 reads + <= 1 Pending + EOF/error; writer <= 1 short write + <= 1 Pending",
+        "outside": "the real parsers inside the async functions (the contract stub stands for them; what they really do is C01-C06); more than the stated transport budgets; multi-task schedules; whole Token::run executions. Concrete-trace harnesses with the real parser (tier=manual) find the pre-fix defect in 215 s but their proofs on the fixed tree do not fit in 20 GB",
+        "assumptions": [E2, E7, E8, "parser contract stubs sv::parse_contract / rv::rparse_contract / sv::compress_contract replace stream::Parser::parse, request::Parser::parse, compress"],
+        "level_text": "Bounded model checking of the suspension points of the connection task: whenever poll_read / parse_request return Pending because the READER is not ready, the parser's output buffer is empty, every reply byte produced so far has been accepted by the transport, every byte read has been handed to the parser, and (parse_request) the handed-over bytes have been parsed at least once - for every behaviour the parser contract allows.",
+        "level_note": "A genuine defect was found here and repaired (/repo 6faef83); known_findings.json lists it as fixed (suppresses nothing). The claim is about the glue for ANY parser behaviour; that the parser processes every complete record per call is C01/C02.",
+    },
+    "C09": {
+        "functions": ["Request::poll_read (AsyncRead)", "Request::poll_input", "Request::poll_output", "stream::Parser::{set_stream,consume_stream,stream_buffer}", "stream::Parser::parse (concrete-shaped trace, every cut)", "Role::{input_streams,next_input_stream}"],
+        "bounds": "glue: as C08 (one poll, symbolic state, parser contract with a ghost stream of 8 symbolic bytes); stream selection: c18_set_stream (every state); real parser on the trace [Stdin(3 bytes, pad 5) | unknown type | Stdin end] cut at every offset 0..32",
+        "outside": "AsyncBufRead (poll_fill_buf/consume) is exercised only through the shared poll_input(None) path of the contract (dest=None delivery), not through its own harness; writeable()/output_stream() gating is not separately checked; sequences of polls follow by induction over the symbolic state, not by a multi-poll query",
+        "assumptions": [E2, E5, E7, E8, "parser contract stubs (see C08)"],
+        "level_text": "Bounded model checking: bytes handed to the caller are exactly the bytes the parser delivered, in order and once (ghost stream), buffered data is served first without touching parser or transport, a 0-byte read happens only at end of stream, a Pending result never loses delivered bytes.",
         "level_note": "",
     },
+    "C10": {
+        "functions": ["StreamWriter::poll_write", "RepeatableLockFuture::{new,poll}", "RecordHeader::{set_lengths,to_bytes,padding_bytes}", "futures_util::lock::Mutex (uncontended)"],
+        "bounds": "one writer (Stdout|Stderr, any id), payload of 3 and 8 (thorough 9) symbolic bytes; the transport checks EVERY vectored write against the one expected record (offered bytes == exactly the unsent rest: header, payload, zero padding) and accepts any 1..n bytes with <= 3 short writes (cuts inside the header, at both seams, inside the padding) and <= 1 Pending; the output lock is held at every Pending and free after completion",
+        "outside": "several writers on separately polled tasks (exclusion is checked as 'lock held while a record is in progress', not by interleaving two writers); payloads > 9 bytes incl. the 65535 cap (set_lengths and try_into().unwrap_or(u16::MAX) are covered for all u16 by c17_set_lengths only); poll_flush; real threads",
+        "assumptions": [E7, E8, "nowaiters: the futures Mutex is never contended in a single-task harness (proved unreachable)"],
+        "level_text": "Bounded model checking: for every split of the vectored writes the bytes reaching the transport are exactly one well-formed record with the written payload, the write reports the payload length, and the mutex guard spans the whole record.",
+        "level_note": "",
+    },
+    "C11": {
+        "functions": ["request::ParamsState::drive (abort during Params)", "stream::Parser::parse_head (abort during streams)", "From<parser::Error> for io::Error", "request::HeaderState::drive (stale records)", "From<ExitStatus> for EndRequest / make_request_epilogue"],
+        "bounds": "every header in every state (see C01/C02/C04): abort for the own id during Params => exactly one EndRequest(RequestComplete, 0, id) and return to the initial state; during streams => Err(AbortRequest) with the header retained (repeats); abort for other ids ignored; AbortRequest => io ConnectionAborted (and only it); ExitStatus::ABORT = Complete('ABRT'); thorough: close() tolerates an abort seen while draining (c07_close_drain)",
+        "outside": "the handler-facing half in Token::run (ConnectionAborted from the handler => ExitStatus::ABORT => close) is a 5-line match that is not reached by any harness (Token needs async_lock/event-listener, see C13); 'the same connection then serves the next request' is compositional (C05 + C07 thorough)",
+        "assumptions": [E2, E4, E5, E8],
+        "level_text": "Bounded model checking of the parser-side abort behaviour from arbitrary states plus the error-kind mapping; the connection-task half is outside (stated).",
+        "level_note": "",
+    },
+    "C12": {
+        "functions": ["Request::poll_input (EOF / read error)", "Token::parse_request (EOF / read error)", "From<parser::Error> for io::Error", "Request::record_boundary (thorough)"],
+        "bounds": "glue harnesses of C08/C09: transport EOF or error after <= 2 reads at any point: poll_read fails with UnexpectedEof resp. the transport's error and never returns a successful empty read unless the stream ended; parse_request fails with ConnectionReset resp. the transport's error and never hands out a request after EOF/error; no spinning (bounded polls with unwinding assertions)",
+        "outside": "write-side faults (WriteZero / write errors in poll_output, poll_write): not checked; 'nothing is written after a failed write' not checked; whole Token::run termination; EOF at every byte offset of a real byte stream is replaced by EOF at every point of the contract-level execution",
+        "assumptions": [E2, E7, E8, "parser contract stubs (see C08)"],
+        "level_text": "Bounded model checking of the read-side fault handling of the glue for every parser behaviour.",
+        "level_note": "Partial: read side only.",
+    },
+    "C14": {
+        "functions": ["WaitGroup::{new,add_task,tasks,into_future}", "WaitGroupFuture::poll", "Drop for WaitGroupInner", "TaskToken drop", "futures AtomicWaker::{register,wake}"],
+        "bounds": "0..2 tokens, each dropped at a symbolic point: before the first poll, INSIDE AtomicWaker::register (the waker's clone callback runs after Weak::upgrade and before the registration is published - the window the property names), after the poll, or never; two polls; counting waker",
+        "outside": "real thread interleavings inside Arc / AtomicWaker (Kani executes atomics sequentially); Runner::shutdown's notify and Token::run's behaviour at the different phases (in-flight request finishes, nothing new starts) - Token needs async_lock/event-listener (see C13)",
+        "assumptions": ["sequential model of the interleaving: the 'other thread' acts at one of the four modelled points"],
+        "level_text": "Bounded model checking: the shutdown future is Ready only when no token is alive, and whenever it returned Pending and the last token goes away afterwards (or inside the registration window) the registered waker is woken.",
+        "level_note": "Partial: wait-group half of the property only.",
+    },
+    "C07": {
+        "functions": ["make_request_epilogue", "From<ExitStatus> for EndRequest", "Token::parse_request", "StreamWriter::poll_write", "Request::close (thorough)"],
+        "bounds": "epilogue bytes for every ExitStatus x id; parse_request glue (C08); writer records (C10); thorough: Request::close at a record boundary (KeepConn / no KeepConn, pending replies, look-ahead) and while draining an unread record, against the parser contract, with a transport that checks the exact byte sequence",
+        "outside": "exactly-one-handler-invocation and the request loop of Token::run (Token needs async_lock/event-listener, see C13); close() only in the thorough tier (30+ min per harness)",
+        "assumptions": [E2, E7, E8, "parser contract stubs (see C08)"],
+        "level_text": "Bounded model checking of the pieces the end-of-request protocol is made of; the whole-connection statement is outside.",
+        "level_note": "Partial.",
+    },
 }
-for k in ("C07", "C09", "C10", "C11", "C12", "C13", "C14"):
-    PROPS.setdefault(k, {"claimed": False})
-CLAIMED_NOW = {"C15", "C16", "C17", "C18", "C19", "C20", "C01", "C02", "C03", "C04", "C05", "C06"}
+NOT_APPLICABLE.update({
+    "C13": "solver-based checking does not reach it: the property lives entirely in async_lock::Semaphore / event-listener (third-party lock-free lists, inline-asm fences); the repository's own code is three lines of wiring (acquire_arc, clone of the Arc, guard field). Measured: with the fence stubbed, a 3-operation SEQUENTIAL history (limit 1: acquire, queued acquire, drop, re-acquire) exhausts 20 GB in CBMC after 630 s; the thread-interleaving quantifier is outside Kani altogether (atomics are executed sequentially). harness c13_tokens_limit1 is kept as tier=manual.",
+})
+PROPS.setdefault("C13", {"claimed": False})
+CLAIMED_NOW = {"C15", "C16", "C17", "C18", "C19", "C20", "C01", "C02", "C03", "C04", "C05", "C06", "C08", "C09", "C10", "C11", "C12", "C14", "C07"}
 for k, v in PROPS.items():
     if k not in CLAIMED_NOW:
         v["claimed"] = False
